@@ -318,7 +318,7 @@ class Check:
             )
         return r
 
-    def judge(self, module, traces, cfg=None, key=None, describe=None, chunk=20000, **kw):
+    def judge(self, module, traces, cfg=None, key=None, describe=None, chunk=20000, multi=False, **kw):
         """Batch-validate `traces` (list of dicts) with the trace spec `module`:
         each trace is one initial state, the verdict is computed by TLC in Next, rejected
         traces are printed by TLC as <<"REJ", tid, clause>>.  Returns list of
@@ -331,7 +331,10 @@ class Check:
             r = self.tlc(module, cfg=cfg, traces=part, **kw)
             got = {}
             for payload in r.rej:
-                got[payload[0]] = payload[1:]
+                if multi:
+                    got.setdefault(payload[0], []).append(payload[1:])
+                else:
+                    got[payload[0]] = payload[1:]
             # every trace must have produced a verdict state: distinct >= 2*len(part)
             if r.distinct < 2 * len(part):
                 raise MachineryError(
